@@ -154,7 +154,13 @@ Definition of_kind (s : store) (k : kind) : list rsrc :=
 Definition member (s : store) (u o : N) : bool :=
   existsb (fun m => (N.eqb u 0 || N.eqb (fst m) u) && N.eqb (snd m) o) (s_urm s).
 
-Inductive flt := FNone | FID (i : N) | FOrg (o : N) | FUser (u : N).
+(** Filters of the unwrapped Find…s.  Whenever a filter carries an ID the unwrapped services
+    resolve it FIRST and ignore the other fields (tenant.BucketSvc.FindBuckets, OrgSvc,
+    UserSvc, authorization.Service): the driver sends id+org, id+name, id+user combinations
+    and reports them as [FID].  [FIDs l]: a bucket name without org, resolved by the driver
+    to the ids of the buckets carrying that name; [FUserOrg]: tokens of a user in an org. *)
+Inductive flt := FNone | FID (i : N) | FOrg (o : N) | FUser (u : N)
+               | FIDs (l : list N) | FUserOrg (u o : N).
 
 (** Candidates of the unwrapped [Find…s(filter)]: [inr cls] is its error. *)
 Definition candidates (s : store) (k : kind) (f : flt) : list rsrc + N :=
@@ -167,6 +173,8 @@ Definition candidates (s : store) (k : kind) (f : flt) : list rsrc + N :=
       | KOrg => inl (filter (fun r => member s u (r_id r)) (of_kind s k))
       | _ => inl (filter (fun r => N.eqb (r_user r) u) (of_kind s k))
       end
+  | FIDs l => inl (filter (fun r => existsb (N.eqb (r_id r)) l) (of_kind s k))
+  | FUserOrg u o => inl (filter (fun r => N.eqb (r_user r) u && N.eqb (r_org r) o) (of_kind s k))
   end.
 
 (** [AuthorizeFind…]: keep the readable ones, skip EUnauthorized, return any other error. *)
@@ -412,6 +420,21 @@ Definition probes (s : store) : list perm :=
 Definition no_escalation_b (c : caller) (granted : list perm) (s : store) : bool :=
   forallb (fun q => negb (existsb (fun p => grants_b p q) granted) || may c q) (probes s).
 
+(** Which stored resources a filter asks for (independent of [candidates]).  An empty org
+    filter by a caller without type-wide read on orgs asks for the caller's own orgs. *)
+Definition flt_match (c : caller) (s : store) (k : kind) (f : flt) (r : rsrc) : bool :=
+  match f with
+  | FNone => match k with
+             | KOrg => may c (mk A_READ T_ORG None None) || member s (c_user c) (r_id r)
+             | _ => true
+             end
+  | FID i => N.eqb (r_id r) i
+  | FOrg o => N.eqb (r_org r) o
+  | FUser u => match k with KOrg => member s u (r_id r) | _ => N.eqb (r_user r) u end
+  | FIDs l => existsb (N.eqb (r_id r)) l
+  | FUserOrg u o => N.eqb (r_user r) u && N.eqb (r_org r) o
+  end.
+
 Definition subset_ids (l : list N) (rs : list rsrc) : bool :=
   forallb (fun i => existsb (fun r => N.eqb (r_id r) i) rs) l.
 
@@ -425,10 +448,17 @@ Definition oracle_step (c : caller) (s : store) (x : call) (o : obs) : bool :=
   (* a denied call leaves the stored state unchanged *)
   negb (denied && changed) &&
   match x with
-  | CFind1 k _ _ | CFindN k _ =>
+  | CFind1 k _ _ =>
       (* only readable resources of the store are returned; reads do not modify *)
       negb changed &&
       forallb (fun i => match lookup s k i with Some r => may_read c r | None => false end) (o_ids o)
+  | CFindN k f =>
+      negb changed &&
+      forallb (fun i => match lookup s k i with Some r => may_read c r | None => false end) (o_ids o) &&
+      (* … and every readable resource matching the filter is returned *)
+      (negb okc ||
+       forallb (fun r => negb (kind_eqb (r_kind r) k && flt_match c s k f r && may_read c r)
+                         || existsb (N.eqb (r_id r)) (o_ids o)) (s_res s))
   | CCreate _ new _ =>
       negb (okc || changed) ||
       (may_create c (r_kind new) (r_org new) (r_user new) &&
